@@ -150,8 +150,8 @@ def print_assumptions(pid, thms):
             continue
         if cur is None:
             continue
-        m = re.match(r"^([A-Za-z_][A-Za-z0-9_.']*)\s*:", l)
-        if m:
+        m = re.match(r"^([A-Za-z_][A-Za-z0-9_.']*)\s*(:|$)", l)
+        if m and l.strip() != "Axioms:":     # "Axioms:" is the header line Coq prints, not an axiom
             res[cur].append(m.group(1))
     return res, out
 
